@@ -89,15 +89,329 @@ def save_reload(chk, t, live, case):
     return True
 
 
+# ---------------------------------------------------------------------------------------
+# the object layer: the caches of wrapper objects against OdfModel/TableObj.lean
+# ---------------------------------------------------------------------------------------
+
+OBJ_READS = ["get_value", "get_cell", "get_row", "get_row_values"]
+
+
+def _elem(w):
+    return getattr(w, "_Element__element", None)
+
+
+def cache_walk(t):
+    """(dump, problems): the table's cache of Row wrappers in the driver's format
+    `idx:rmap:cellidx=payload,...;...` (maps as cumulative counts) and, checked on the live objects, whether
+    every cached wrapper holds the element at its key (the identification the Lean model makes).
+    dump is None when the private attributes are not there (renamed): then only answers are compared."""
+    idx_map = getattr(t, "_indexes", {}).get("_tmap") if isinstance(getattr(t, "_indexes", None), dict) else None
+    root = _elem(t)
+    if idx_map is None or root is None:
+        return None, []
+    rows = [e for e in root if e.tag == T.TB + "table-row"]
+    out, problems = [], []
+    for idx in sorted(idx_map):
+        w = idx_map[idx]
+        el = _elem(w)
+        rmap = getattr(w, "_rmap", None)
+        if el is None or rmap is None:
+            return None, []
+        if idx >= len(rows) or rows[idx] is not el:
+            problems.append(f"the cached row wrapper under key {idx} does not hold the row element of odf index {idx}")
+            continue
+        cells = [c for c in el if c.tag in (T.TB + "table-cell", T.TB + "covered-table-cell")]
+        cc = getattr(w, "_indexes", {}).get("_rmap", {})
+        items = []
+        for i in sorted(cc):
+            cel = _elem(cc[i])
+            if cel is None:
+                continue
+            if i >= len(cells) or cells[i] is not cel:
+                problems.append(f"row wrapper {idx}: the cached cell wrapper under key {i} does not hold the cell element of odf index {i}")
+                continue
+            items.append(f"{i}={T.pay_id(T.cell_payload(cel))}")
+        out.append(f"{idx}:{'.'.join(str(p + 1) for p in rmap) or '-'}:{','.join(items) or '-'}")
+    return ";".join(out) or "-", problems
+
+
+def gen_obj_history(rng, max_ops=9):
+    """mutations of the proved alphabet with 0-3 cache-filling reads before each, tables parsed from XML"""
+    cols, rows = T.gen_rle(rng)
+    g = T.grid_from_rle(cols, rows)
+    ops = []
+    for _ in range(rng.randint(2, max_ops)):
+        for _r in range(rng.choice([0, 1, 1, 2, 3])):
+            W, H = g.ncols, len(g.rows)
+            ops.append({"op": "read", "read": rng.choice(OBJ_READS), "x": rng.randrange(-W, W + 2) if W else rng.randrange(2),
+                        "y": rng.randrange(-H, H + 2) if H else rng.randrange(2), "clone": rng.random() < 0.5})
+        op = T.gen_op(rng, g)
+        while op["op"] == "set_column_values":
+            op = T.gen_op(rng, g)
+        ops.append(op)
+        T.ref_apply(g, op)
+        if g.rows and g.ncols == 0:
+            break
+    return {"cols": cols, "rows": rows, "how": "xml", "ops": ops}
+
+
+def obj_line(op):
+    if op["op"] != "read":
+        return "otb" + T.op_line(op)[3:]
+    r = op["read"]
+    if r in ("get_value", "get_cell"):
+        return f"otb getv {op['x']} {op['y']}"
+    if r == "get_row":
+        return f"otb touch {op['y']}"
+    return f"otb rowv {op['y']}"
+
+
+def obj_impl(t, op):
+    """apply to the implementation; the answer of a value read (None otherwise)"""
+    if op["op"] != "read":
+        T.impl_apply(t, op)
+        return None
+    r = op["read"]
+    if r == "get_value":
+        return [t.get_value((op["x"], op["y"]))]
+    if r == "get_cell":
+        return [t.get_cell((op["x"], op["y"]), clone=op["clone"]).get_value()]
+    if r == "get_row":
+        t.get_row(op["y"], clone=op["clone"])
+        return None
+    return list(t.get_row_values(op["y"]))
+
+
+def run_obj_histories(chk: core.Check, n_hist: int):
+    from odfdo import Element
+
+    rng = chk.rng
+    lines, expects = [], []
+    for hno in range(n_hist):
+        h = gen_obj_history(rng)
+        t = T.table_from_rle(h["cols"], h["rows"])
+        case0 = {"cols": h["cols"], "rows": h["rows"], "how": "xml"}
+        cs, rs, _p, _g = T.state_of_xml(t.serialize())
+        dump, problems = cache_walk(t)
+        lines.append(f"otb init {cs} {rs}")
+        expects.append((cs, rs, dump, None, {**case0, "ops": []}))
+        done = []
+        for op in h["ops"]:
+            done.append(op)
+            case = {**case0, "ops": list(done)}
+            chk.count("obj_ops", op["op"] if op["op"] != "read" else "read:" + op["read"])
+            try:
+                ans = obj_impl(t, op)
+            except Exception as e:  # noqa: BLE001
+                chk.fail({**case, "exception": repr(e)}, f"{op.get('read', op['op'])} raised {type(e).__name__} (object-layer history)")
+                break
+            xml = t.serialize()
+            cs, rs, _p, _g = T.state_of_xml(xml)
+            dump, problems = cache_walk(t)
+            if dump is None:
+                chk.count("obj", "caches not observable (private attributes absent)")
+            chk.case(("obj", repr(case)), nontrivial=bool(dump and dump != "-"))
+            if problems:
+                # a wrapper that no longer holds the element at its key: look for the stale read it causes
+                fr = Element.from_tag(xml)
+                bad = None
+                for y in range(t.height):
+                    try:
+                        if list(t.get_row_values(y)) != list(fr.get_row_values(y)):
+                            bad = (y, list(t.get_row_values(y)), list(fr.get_row_values(y)))
+                            break
+                    except Exception as e:  # noqa: BLE001
+                        bad = (y, repr(e), "fresh parse answers")
+                        break
+                if bad:
+                    chk.fail({**case, "row": bad[0], "live": bad[1], "fresh_parse": bad[2], "cache": problems[0]},
+                             "a read is served from a cached wrapper that an earlier operation made obsolete")
+                else:
+                    chk.disagree({**case, "cache": problems}, problems[0])
+                break
+            if ans is not None:
+                fr = Element.from_tag(xml)
+                fresh = obj_impl(fr, op)
+                if fresh != ans:
+                    chk.fail({**case, "live": ans, "fresh_parse": fresh}, f"{op['read']} through the caches differs from the fresh parse of the table's own XML")
+                    break
+            lines.append(obj_line(op))
+            expects.append((cs, rs, dump, ans, case))
+    answers = core.run_driver(lines)
+    skip_until_init = False
+    for line, a, (cs, rs, dump, ans, case) in zip(lines, answers, expects):
+        if line.startswith("otb init"):
+            skip_until_init = False
+        if skip_until_init:
+            continue
+        if not a.startswith("ok "):
+            chk.disagree({**case, "line": line}, f"object-layer model answers {a!r} where the implementation succeeded")
+            skip_until_init = True
+            continue
+        fields = dict(p.partition("=")[::2] for p in a.split(" ")[3:] if "=" in p)
+        if fields.get("xml") in ("DIFF", "none"):
+            chk.disagree({**case, "line": line, "answer": a}, "object-layer model and XML-level model differ on this step (cached_step_refines would be false here)")
+            skip_until_init = True
+            continue
+        if fields.get("cols") != cs or fields.get("rows") != rs:
+            mg, ig = T.grid_of_spec(fields["cols"], fields["rows"]), T.grid_of_spec(cs, rs)
+            if mg.cells() != ig.cells() or mg.ncols != ig.ncols:
+                chk.disagree({**case, "line": line, "impl": [cs, rs], "model": [fields["cols"], fields["rows"]]}, "object-layer model grid != implementation grid")
+            else:
+                chk.count("obj", "same grid, different runs (cache keys not comparable, history dropped)")
+            skip_until_init = True
+            continue
+        if ans is not None:
+            got = fields.get("ans", "-")
+            mvals = [] if got == "-" else [T.id_pay(int(v))[0] for v in got.split(",")]
+            if mvals != ans or [type(v) for v in mvals] != [type(v) for v in ans]:
+                chk.disagree({**case, "line": line, "impl": ans, "model": mvals}, "answer of a read through the caches: implementation != object-layer model")
+                skip_until_init = True
+                continue
+            if fields.get("ans") != fields.get("fresh"):
+                chk.disagree({**case, "line": line, "answer": a}, "object-layer model: answer through the caches != answer of the cache-free model")
+        if dump is not None:
+            if fields.get("cache") != dump:
+                chk.disagree({**case, "line": line, "impl_cache": dump, "model_cache": fields.get("cache")},
+                             "wrapper caches (_indexes['_tmap'], each wrapper's _rmap and cached cells): implementation != object-layer model")
+                skip_until_init = True
+                continue
+            chk.count("obj", "steps with identical wrapper caches" + ("" if dump == "-" else " (non-empty)"))
+
+
+# ---------------------------------------------------------------------------------------
+# wide alphabet: every public mutator of Table / Row, whole-table transformations included,
+# decided by the live-vs-fresh-vs-independent-reader oracle alone (no model, no reference grid)
+# ---------------------------------------------------------------------------------------
+
+WIDE_OPS = ["rstrip", "rstrip_aggr", "optimize_width", "transpose", "set_span", "del_span", "extend_rows", "set_column_cells",
+            "live_row_edit", "row_repeated", "clear_row"]
+WIDE_READS = T.READS + ["get_row_values", "get_row_width", "get_cells", "is_row_empty"]
+
+
+def wide_read(t, rng):
+    W, H = t.size
+    r = rng.choice(WIDE_READS)
+    x, y = rng.randrange(W + 2), rng.randrange(H + 2)
+    try:
+        if r == "get_row_values":
+            t.get_row_values(y)
+        elif r == "get_row_width":
+            t.get_row(y, clone=False).width  # noqa: B018
+        elif r == "get_cells":
+            t.get_cells()
+        elif r == "is_row_empty":
+            t.is_row_empty(y)
+        else:
+            T.do_read(t, {"read": r, "x": x, "y": y, "clone": rng.random() < 0.5})
+    except (ValueError, IndexError):
+        pass
+    return (r, x, y)
+
+
+def wide_op(t, rng):
+    """apply one mutator chosen at random; returns its description"""
+    from odfdo import Cell, Row
+
+    W, H = t.size
+    if rng.random() < 0.45:
+        g = T.Grid()
+        g.ncols = W
+        g.rows = [[T.EMPTY] * W for _ in range(H)]
+        op = T.gen_op(rng, g)
+        T.impl_apply(t, op)
+        return op
+    k = rng.choice(WIDE_OPS)
+    d = {"op": k}
+    if k in ("rstrip", "rstrip_aggr"):
+        t.rstrip(aggressive=k == "rstrip_aggr")
+    elif k == "optimize_width":
+        t.optimize_width()
+    elif k == "transpose":
+        t.transpose()
+    elif k == "set_span":
+        if W and H:
+            x, y = rng.randrange(W), rng.randrange(H)
+            d["area"] = (x, y, min(W - 1, x + rng.randrange(3)), min(H - 1, y + rng.randrange(3)))
+            t.set_span(d["area"])
+    elif k == "del_span":
+        if W and H:
+            d["area"] = (rng.randrange(W), rng.randrange(H))
+            t.del_span((d["area"][0], d["area"][1], d["area"][0], d["area"][1]))
+    elif k == "extend_rows":
+        d["rows"] = [T.expand_line(T.gen_line(rng, 3)) for _ in range(rng.randint(1, 2))]
+        t.extend_rows([T.mk_row(r, rng.choice(T.REPS)) for r in d["rows"]])
+    elif k == "set_column_cells":
+        if W:
+            d["x"] = rng.randrange(W)
+            t.set_column_cells(d["x"], [T.mk_cell(T.gen_payload(rng)) for _ in range(H)])
+    elif k == "live_row_edit":
+        # a row obtained with clone=False is the table's own row: editing it edits the table
+        if H:
+            d["y"] = rng.randrange(H)
+            row = t.get_row(d["y"], clone=False)
+            if (row.repeated or 1) == 1:
+                d["x"] = rng.randrange(W + 1)
+                row.set_cell(d["x"], T.mk_cell(T.gen_payload(rng), rng.choice(T.REPS)))
+                t._update_width(row) if hasattr(t, "_update_width") else None
+    elif k == "row_repeated":
+        if H:
+            d["y"] = rng.randrange(H)
+            d["rep"] = rng.choice([None, 2, 3])
+            t.get_row(d["y"], clone=False).repeated = d["rep"]
+    elif k == "clear_row":
+        if H:
+            d["y"] = rng.randrange(H)
+            t.set_row(d["y"], Row())
+    return d
+
+
+def run_wide_histories(chk: core.Check, n_hist: int):
+    rng = chk.rng
+    for hno in range(n_hist):
+        cols, rows = T.gen_rle(rng)
+        t = T.table_from_rle(cols, rows)
+        case0 = {"cols": cols, "rows": rows, "how": "xml"}
+        done = []
+        for _ in range(rng.randint(2, 7)):
+            for _r in range(rng.choice([0, 1, 2, 3])):
+                done.append({"op": "read", "read": wide_read(t, rng)})
+            try:
+                d = wide_op(t, rng)
+            except Exception as e:  # noqa: BLE001
+                # a refusal (overlapping span, bad argument) is not a failure, but the table must still be what its XML says
+                d = {"op": "refused", "exception": repr(e)[:120]}
+            done.append(d)
+            chk.count("wide_ops", d["op"])
+            case = {**case0, "ops": list(done)}
+            W, H = t.size
+            g = T.Grid()
+            g.ncols = W
+            g.rows = [[T.EMPTY] * W for _ in range(H)]
+            chk.case(("wide", repr(case)), nontrivial=d["op"] in WIDE_OPS)
+            if extra(chk, t, g, case) is False:
+                break
+            if t.width == 0 and t.height:
+                break
+
+
 def run(chk: core.Check) -> None:
     chk.rule = (
         "the C01 histories with a cache-filling read (get_row / get_cell / get_value / traverse / get_column / get_values / get_column_cells, "
         "clone True/False) before most mutations; after every mutation the live object, the fresh parse of its serialisation and an independent "
         "lxml expansion are compared on size, matrix, random cells (in / edge / beyond / negative), a row and its width, a column, traverse with "
-        "styles; save + reload of a document every third step (thorough: every step). non-trivial as in C01; distinct by (encoding, op prefix)"
+        "styles; save + reload of a document every third step (thorough: every step). non-trivial as in C01; distinct by (encoding, op prefix). "
+        "object layer: histories of the 15 proved mutators with 0-3 reads (get_value / get_cell / get_row / get_row_values, in / edge / beyond / "
+        "negative) before each, on tables parsed from XML; after EVERY step the live table's cache of Row wrappers (keys, each wrapper's own _rmap, "
+        "its cached cells) is compared with OdfModel/TableObj.lean, every cached wrapper must hold the element at its key, and every answer is "
+        "compared with the model and with a fresh parse; non-trivial there = the wrapper cache is non-empty after the step. wide alphabet: histories "
+        "mixing the C01 mutators with rstrip / optimize_width / transpose / set_span / del_span / extend_rows / set_column_cells / edits and repeat changes "
+        "through a live row, 0-3 reads before each, decided by the live == fresh parse == independent reader oracle alone"
     )
     run_histories(chk, chk.n(600, 12000), 8, compare_runs=False, reads=True, extra=extra)
     run_row_histories(chk, chk.n(500, 8000))
+    run_obj_histories(chk, chk.n(700, 12000))
+    run_wide_histories(chk, chk.n(500, 10000))
 
 
 def replay(obj: dict) -> int:
